@@ -46,6 +46,9 @@ def pool(rng):
     # format entries that leave fields to their defaults (an uncompressed rank without pbits / cbits) under payload / elem / coord bindings:
     # whatever the translator fills in must not be written into the caller's Format
     p["fmtU"] = FMT_U
+    # every optional key of the mapping present (a constructor that pops instead of reads leaves the caller's Mapping poorer)
+    p["stslip"] = ("einsum:\n  declaration:\n    A: [K, M]\n    B: [K, N]\n    Z: [M, N]\n  expressions:\n    - Z[m, n] = A[k, m] * B[k, n]\n"
+                   "mapping:\n  loop-order:\n    Z: [M, N, K]\n  spacetime:\n    Z:\n      space: [N]\n      time: [M.coord, K.pos]\n      opt: slip\n")
     return p
 
 
